@@ -1,6 +1,7 @@
 CONSTANTS
   Dev = {}
   QCapT = 10
+  LimitT = 3
 SPECIFICATION TSpec
 INVARIANT ConnInvariants
 INVARIANT LostCounter
